@@ -1,7 +1,9 @@
 (* Model of the tile endpoint's path handling (versatiles/src/tools/server/sources/tile_source.rs
    TileSource::get_data, utils/url.rs Url::as_vec) and of get_encoding (tile_server.rs).
-   Paths are lists of byte codes (the request target after the `/tiles/<id>/` prefix). ASCII only:
-   non-ASCII `char::is_numeric` characters are outside the model (they make the parse fail = 400).  *)
+   Paths are lists of Unicode scalar values (the request target after the `/tiles/<id>/` prefix,
+   which hyper hands over as a `&str`).  `numeric` stands for `char::is_numeric` of the standard
+   library (Unicode general categories Nd, Nl, No), which the code uses to cut the leading digits off the
+   y part; `str::parse` itself only accepts ASCII digits.  *)
 From Coq Require Import List NArith Bool.
 Import ListNotations.
 Local Open Scope N_scope.
@@ -32,18 +34,19 @@ Definition parse_uint (limit : N) (s : str) : option N :=
   | _ => match digits_val 0 s' with Some v => if v <=? limit then Some v else None | None => None end
   end.
 
-Fixpoint take_digits (l : str) : str :=
-  match l with c :: r => if is_digit c then c :: take_digits r else [] | [] => [] end.
+(* `.chars().take_while(|c| c.is_numeric()).collect::<String>()` *)
+Fixpoint take_digits (numeric : N -> bool) (l : str) : str :=
+  match l with c :: r => if numeric c then c :: take_digits numeric r else [] | [] => [] end.
 
 Inductive presult := PCoord (z x y : N) | PBad | PMeta | PNone | PPanic.
 
 (* variant 0: `parts[0]` is indexed unconditionally (pinned source: panics for an empty path);
    1: an empty path is "unknown request" *)
-Definition parse_tile_path (variant : N) (path : str) : presult :=
+Definition parse_tile_path (variant : N) (numeric : N -> bool) (path : str) : presult :=
   let parts := as_vec path in
   match parts with
   | p0 :: p1 :: p2 :: _ =>
-      match parse_uint 255 p0, parse_uint 4294967295 p1, parse_uint 4294967295 (take_digits p2) with
+      match parse_uint 255 p0, parse_uint 4294967295 p1, parse_uint 4294967295 (take_digits numeric p2) with
       | Some z, Some x, Some y => if z <=? 31 then PCoord z x y else PBad       (* TileCoord3::new *)
       | _, _, _ => PBad
       end
@@ -56,8 +59,8 @@ Definition parse_tile_path (variant : N) (path : str) : presult :=
   end.
 
 (* HTTP status: 400 for an unparsable coordinate, 404 when there is no tile / unknown request *)
-Definition status (variant : N) (has_tile : N -> N -> N -> bool) (path : str) : option N :=
-  match parse_tile_path variant path with
+Definition status (variant : N) (numeric : N -> bool) (has_tile : N -> N -> N -> bool) (path : str) : option N :=
+  match parse_tile_path variant numeric path with
   | PCoord z x y => Some (if has_tile z x y then 200 else 404)
   | PBad => Some 400
   | PMeta => Some 200
